@@ -19,7 +19,7 @@ if [ "$DEMO" != "-" ]; then
   PYTHONPATH="$W/src" /venv/bin/python "$DEMO" > "$W/demo.log" 2>&1; echo "demo_with_change_exit=$?"
   PYTHONPATH=/repo/src /venv/bin/python "$DEMO" > "$W/demo0.log" 2>&1; echo "demo_without_change_exit=$?"
 fi
-cd /verif
+cd ${VERIF_HOME:-/verif}
 for c in "$@"; do
   VERIF_REPO="$W" ./check "$c" > "$W/$c.log" 2>&1; rc=$?
   echo "check $c exit=$rc violations=$(grep -c '^VIOLATION' "$W/$c.log") :: $(grep '^VIOLATION' "$W/$c.log" | head -2 | sed 's/.*# //' | cut -c1-220 | tr '\n' '|')"
